@@ -43,6 +43,12 @@ class Body:
             out = [t["target"]]
         elif k == "switch":
             out = [x[1] for x in t["targets"]] + [t["otherwise"]]
+            # `if false { loop {} }` type-hint blocks emitted by #[tracing::instrument]: a switch on a
+            # constant assigned in the same block has one feasible successor
+            cv = self._const_switch_value(bb, t)
+            if cv is not None:
+                hit = [x[1] for x in t["targets"] if x[0] == cv]
+                out = [hit[0]] if hit else [t["otherwise"]]
         elif k in ("call", "drop", "assert"):
             if t.get("target") is not None:
                 out = [t["target"]]
@@ -58,6 +64,23 @@ class Body:
             if b not in seen:
                 seen.append(b)
         return seen
+
+    def _const_switch_value(self, bb, t):
+        d = t["discr"]
+        if "const" in d:
+            return d["const"].get("int")
+        p = d.get("move") or d.get("copy")
+        if p is None or p["p"]:
+            return None
+        val = None
+        for s in self.blocks[bb]["s"]:
+            if s["k"] == "assign" and s["place"]["l"] == p["l"] and not s["place"]["p"]:
+                rv = s["rv"]
+                if rv["k"] == "use" and "const" in rv["op"] and rv["op"]["const"].get("int") is not None:
+                    val = rv["op"]["const"]["int"]
+                else:
+                    val = None
+        return val
 
     def succs(self):
         if self._succ is None:
